@@ -27,6 +27,10 @@ Inductive discharge :=
                        a float operation applied once to values that are themselves deterministic
                        (no accumulation across an unordered iteration); IEEE-754 binary64 operations
                        and Go's strconv formatting are functions of their operands — by reading       *)
+| D_WiringOnly      (* process-level state (package variable or keeper-struct field of map / slice / chan / pointer
+                       type) that is assigned while the app is wired (init, NewKeeper, AddRoute, RegisterExternalAddress)
+                       and only read during block execution: no cache, nothing that depends on which context
+                       branches ran or on whether the process was restarted — by reading                          *)
 | D_Telemetry.      (* a float constant handed to a telemetry counter; metrics are not state — by reading *)
 
 Definition allow : list (string * string * site_kind * Z * string * discharge) :=
@@ -46,12 +50,23 @@ Definition allow : list (string * string * site_kind * Z * string * discharge) :
    ("x/crosschain/types/types.go", "BridgeValidators.PowerDiff", K_float, 4, "inmaprange,inmaprange", D_ExactFloatSum);
    ("x/crosschain/types/types.go", "BridgeValidators.PowerDiff", K_maprange, 1, "", D_ExactFloatSum);
    ("x/gov/keeper/tally.go", "Keeper.Tally", K_maprange, 1, "", D_CommSum);
-   ("x/gov/types/msgs.go", "CustomParams.ValidateBasic", K_float, 1, "", D_PureFloat) ].
+   ("x/gov/types/msgs.go", "CustomParams.ValidateBasic", K_float, 1, "", D_PureFloat);
+   (* process-level mutable state under x/: each entry lists ALL such fields / variables of the struct / file *)
+   ("x/crosschain/keeper/keeper_router.go", "type router", K_state, 1, "routes:map[string]*keeper.ModuleHandler", D_WiringOnly);
+   ("x/crosschain/precompile/keeper.go", "type Keeper", K_state, 1, "router:*precompile.Router", D_WiringOnly);
+   ("x/crosschain/types/external_address.go", "<package-level>", K_state, 2, "externalAddressRouter:map[string]types.ExternalAddress,reModuleName:*regexp.Regexp", D_WiringOnly);
+   ("x/erc20/keeper/keeper.go", "type Keeper", K_state, 1, "chainsName:[]string", D_WiringOnly);
+   ("x/evm/keeper/keeper.go", "type Keeper", K_state, 1, "(embedded):*keeper.Keeper", D_WiringOnly);
+   ("x/gov/keeper/grpc_query.go", "type QueryServer", K_state, 1, "k:*keeper.Keeper", D_WiringOnly);
+   ("x/gov/keeper/keeper.go", "type Keeper", K_state, 2, "(embedded):*keeper.Keeper,storeKeys:map[string]*types.KVStoreKey", D_WiringOnly);
+   ("x/gov/keeper/msg_server.go", "type msgServer", K_state, 1, "(embedded):*keeper.Keeper", D_WiringOnly);
+   ("x/migrate/keeper/keeper.go", "type Keeper", K_state, 1, "migrateI:[]keeper.MigrateI", D_WiringOnly);
+   ("x/staking/keeper/keeper.go", "type Keeper", K_state, 1, "(embedded):*keeper.Keeper", D_WiringOnly) ].
 
 Definition kind_eqb (a b : site_kind) : bool :=
   match a, b with
   | K_maprange, K_maprange | K_mapkeys, K_mapkeys | K_float, K_float | K_floatfmt, K_floatfmt
-  | K_timenow, K_timenow | K_rand, K_rand | K_goroutine, K_goroutine | K_select, K_select => true
+  | K_timenow, K_timenow | K_rand, K_rand | K_goroutine, K_goroutine | K_select, K_select | K_state, K_state => true
   | _, _ => false
   end.
 
